@@ -90,6 +90,7 @@ class Rec:
         self.handled = []         # every key press that reached a handler, in order (oracle)
         self.late_calls = []      # (effect, keys) of handler calls made after the result was set (oracle)
         self.decoded = []         # every key press the input produced (oracle)
+        self.fed = []             # every key press a handler fed with first=True (oracle)
         self.pending = None
         self.started = True
         self.in_prompt = False
@@ -156,6 +157,8 @@ class Rec:
         def feed(key_press, first=False):
             if key_press is rec._Flush:
                 rec.pending = [L_FLUSHKEYS]
+            elif first:
+                rec.fed.append(key_press)
             return orig_feed(key_press, first)
         kp.feed = feed
 
@@ -254,7 +257,7 @@ class Rec:
             [list(r) for r in self.results],
             S(prefix),
             self.events,
-            [0, 0]])
+            [0, 0, [self.kp(k) for k in self.fed]]])
         self.events = []
 
     # -- operations
@@ -367,8 +370,10 @@ async def _run_async(rec, ops, maxp):
         elif kind == "wait":
             if task is not None and not task.done():
                 try:
-                    await asyncio.wait_for(asyncio.shield(task), 3)
+                    await asyncio.wait_for(asyncio.shield(task), op[1] if len(op) > 1 else 3)
                 except asyncio.TimeoutError:
+                    if len(op) > 1:
+                        continue          # soft wait: the prompt may legitimately still be waiting for keys
                     hang = "prompt %d did not return" % (len(rec.results) + 1)
                     break
                 await _pump(4)
@@ -605,6 +610,13 @@ def oracle(sc, o):
         fam = "lost" if len(a) < len(b) else ("duplicated" if len(a) > len(b) else "reordered")
         bad.append(("keys that reached handlers ++ key buffer ++ type-ahead ++ queue differ from the decoded keys at index %d" % i,
                     {"clause": "conservation", "family": fam}, {"at": i, "seen": a[i:i + 3], "decoded": b[i:i + 3]}))
+    # C17_handler_conservation: the only key presses handlers see beyond the decoded ones are those a
+    # handler fed with first=True (C-j feeds ControlM), each exactly once
+    extra = sorted(id(k) for k in list(rec.handled) + left if id(k) not in ids and k is not rec._Flush)
+    if extra != sorted(id(k) for k in rec.fed):
+        fam = "fed-lost" if len(extra) < len(rec.fed) else ("fed-duplicated" if len(extra) > len(rec.fed) else "foreign-key")
+        bad.append(("key presses that reached handlers (or wait) without having been decoded: %d, fed by handlers: %d" % (len(extra), len(rec.fed)),
+                    {"clause": "conservation", "family": fam}, {}))
     for snap in o["snaps"]:
         if any(it[0] == rec.kid[rec.Keys.CPRResponse] for it in snap[3]):
             bad.append(("a cursor position report was stored as type-ahead", {"clause": "cpr-stored", "family": "typeahead"}, {}))
@@ -930,6 +942,61 @@ def gen_scenarios(chk):
         ops.append(["close"])
         ops += [["start"], ["wait"]] * (n + 1)
         add("utf8-split-inside-characters", {"rcpr": 0, "mode": "async", "ops": ops, "tokens": [list(t) for t in toks], "maxp": n})
+    # several lines (and the beginning of one more) in ONE write before the first prompt: the first prompt
+    # takes its line out of one read, the following ones complete purely from type-ahead (run_async's
+    # early path: get_typeahead -> process_keys -> result set before the input is attached) with keys
+    # left over each time (store_typeahead); the pipe stays open, the rest arrives while a prompt waits
+    nta = 160 if thorough else 24
+    for _ in range(nta):
+        toks = rand_script(rng, rng.randint(3, 6))
+        pieces = [tok_bytes(t) for t in toks]
+        data = "".join(pieces)
+        ncomp = rng.randint(max(1, len(toks) * 2 // 3), len(toks))     # tokens completely inside the first write
+        cutpos = len("".join(pieces[:ncomp]))
+        if ncomp < len(toks) and len(pieces[ncomp]) > 1 and rng.random() < 0.6:
+            cutpos += rng.randint(1, len(pieces[ncomp]) - 1)             # ... plus a part of the next key's bytes
+        k = len(expected_results(toks[:ncomp], closed=False))
+        n = len(expected_results(toks))
+        ops = [["w", data[:cutpos]]] + [["start"], ["wait"]] * k + [["start"]]
+        ops += [["w", c] for c in cut(rng, data[cutpos:], rng.choice([1, 3, 50]))]
+        if rng.random() < 0.5:
+            ops.append(["sleep", 0.01])
+        ops += [["close"]] + [["start"], ["wait"]] * (n + 1)
+        add("typeahead-several-lines-then-more", {"rcpr": rng.choice([0, 0, 1]), "mode": "async", "ops": ops,
+                                                  "tokens": [list(t) for t in toks], "maxp": n})
+    # reports right after the accepting key and inside the next line, everything in one or two writes: the
+    # report is taken out of the queue after the result is set while the keys before and behind it stay,
+    # in order, and become type-ahead
+    nca = 160 if thorough else 24
+    for _ in range(nca):
+        toks = []
+        for _ in range(rng.randint(2, 4)):
+            line = rand_line(rng)
+            body, term = line[:-1], line[-1]
+            if body and rng.random() < 0.6:
+                body.insert(rng.randint(0, len(body)), ("cpr", rng.randint(1, 24), rng.randint(1, 80)))
+            toks += body + [term]
+            for _ in range(rng.choice([1, 1, 2, 0])):
+                toks.append(("cpr", rng.randint(1, 24), rng.randint(1, 80)))
+        n = len(expected_results(plain(toks)))
+        add("cpr-behind-accept-in-one-read", mk_async(rng, toks, bytes_of(toks), rng.choice([0, 1, 1]), rng.choice([1000, 1000, 25]), n,
+                                                     {"cpr_class": "boundary", "quoted_split": False}))
+    # several prompt_async() calls in ONE event loop with a busy gap between them: the first prompt ends
+    # with half an escape sequence pending in the parser and the ttimeoutlen flush timer armed (10 ms); the
+    # loop keeps running for 100 ms with no application - a timer outliving its run must not flush the
+    # parser (or feed the key processor) - then the next prompt gets the rest of the key
+    ngap = 60 if thorough else 8
+    for _ in range(ngap):
+        l1 = [("c", rng.choice("xy")) for _ in range(rng.randint(0, 2))] + [(rng.choice(["enter", "lf", "ctrl-c"]), 0)]
+        l2a = [("c", rng.choice("ab")) for _ in range(rng.randint(1, 3))]
+        key = rng.choice([("left", 0), ("right", 0), ("del", 0), ("f1", 0), ("end", 1), ("bword", 0)])
+        l2b = [("c", "Y"), ("enter", 0), ("c", "z"), ("enter", 0)]
+        kb = tok_bytes(key)
+        ck = rng.choice([1, 2]) if len(kb) > 2 else 1       # the read with the accept ends after ESC, or after ESC [ / ESC O
+        ops = [["start"], ["w", bytes_of(l1 + l2a) + kb[:ck], rng.choice([1, 3])], ["sleep", 0.02], ["start"],
+               ["w", kb[ck:] + bytes_of(l2b)], ["sleep", 0.02], ["close"]] + [["start"], ["wait"]] * 4
+        toks = l1 + l2a + [key] + l2b
+        add("busy-gap-between-prompts", {"rcpr": 0, "mode": "async", "ops": ops, "tokens": [list(t) for t in toks], "maxp": 4})
     # reports cut into a key's own byte sequence: not something a terminal does; reported separately
     nmid = 200 if thorough else 20
     for _ in range(nmid):
